@@ -97,7 +97,7 @@ def gram_passes(pid, tier):
     if pid in ('C08', 'C16'):
         P.append((LIFT + 'error-rule frames NT2 T2 R<=2 and NT2 T3 R<=2, strings<=4', base + ['--nt', '2', '--err', '1', '--maxlen', '4'], 'lift'))
     if pid == 'C05':
-        P.append((LIFT + 'operator grammars NT1 T3 R<=3 W<=6, all precedence/associativity assignments', base + ['--nt', '1', '--t', '3', '--err', '0', '--maxR', '3', '--maxlen', '4', '--prec-levels', '2' if q else '3', '--rprec-max', '1' if q else '2'], 'lift'))
+        P.append((LIFT + 'operator grammars NT1 T3 R<=3 W<=%d, all precedence/associativity assignments' % (5 if q else 6), base + ['--nt', '1', '--t', '3', '--err', '0', '--maxR', '3', '--maxW', '5' if q else '6', '--maxlen', '4', '--prec-levels', '2' if q else '3', '--rprec-max', '1' if q else '2'], 'lift'))
     if pid in ('C01', 'C02', 'C05', 'C08', 'C09', 'C11', 'C16'):
         P.append(('realistic seed grammars (JSON, layered expression grammar with calls, 5-operator grammar with declared precedence, statements with error recovery), all one-symbol variants, strings<=3 over 8-11 terminals + every sentence of the seed up to %d tokens and its one-token deletions' % (7 if q else 8), base + ['--maxlen', '3', '--sentences', '7' if q else '8', '--neighbours', '--max-per-frame', '0', '--seeds', os.path.join(VERIF, 'seeds', 'gram_big_seeds.txt')], 'big'))
     return ('quick' if q else 'thorough'), P
